@@ -75,21 +75,20 @@ inductive PRes
   | lost (k : Nat)      -- `break` after a ConnectionError / empty read; k = next read
 deriving DecidableEq, Repr
 
+/-- prepend one action to the result of the rest of the loop -/
+def consOp (o : Op) (r : PRes × List Op) : PRes × List Op := (r.1, o :: r.2)
+
 /-- the `while resp is pending` loop: `k` next read, `np` = n_pending, `nt` = n_timeout -/
 def pendingLoop (c : Cfg) (s : Nat → Ev) (k np nt : Nat) : PRes × List Op :=
   match s k with
   | .timeout =>
     if h : maxNT c ≤ nt + 1 then (.silence (k+1), [.rd k c.lim.waiting c.lim.waiting])
-    else
-      let r := pendingLoop c s (k+1) np (nt+1)
-      (r.1, .rd k c.lim.waiting c.lim.waiting :: r.2)
+    else consOp (.rd k c.lim.waiting c.lim.waiting) (pendingLoop c s (k+1) np (nt+1))
   | .connErr | .empty => (.lost (k+1), [.rd k c.lim.waiting c.lat])
   | .mismatch | .malformed => (.done (.illegal k), [.rd k c.lim.waiting c.lat])
   | .pending =>
     if h : c.lim.maxPending ≤ np + 1 then (.done .stuck, [.rd k c.lim.waiting c.lat])
-    else
-      let r := pendingLoop c s (k+1) (np+1) 0
-      (r.1, .rd k c.lim.waiting c.lat :: r.2)
+    else consOp (.rd k c.lim.waiting c.lat) (pendingLoop c s (k+1) (np+1) 0)
   | .busy | .negFinal | .posFinal => (.done (.reply k), [.rd k c.lim.waiting c.lat])
 termination_by (c.lim.maxPending - np, maxNT c - nt)
 decreasing_by
@@ -117,13 +116,12 @@ def attempts (c : Cfg) (s : Nat → Ev) (i k : Nat) (last : Out) : Out × List O
     | .mismatch | .malformed => (.illegal k, [.wr, .rd k c.timeout c.lat])
     | .negFinal | .posFinal => (.reply k, [.wr, .rd k c.timeout c.lat])
     | .pending =>
-      let p := pendingLoop c s (k+1) 1 0
-      match p.1 with
-      | .done o => (o, .wr :: .rd k c.timeout c.lat :: p.2)
-      | .silence k' =>
-        pre (.wr :: .rd k c.timeout c.lat :: p.2) (attempts c s (i+1) k' (.missing false))
-      | .lost k' =>
-        pre (.wr :: .rd k c.timeout c.lat :: (p.2 ++ afterFault c i true)) (attempts c s (i+1) k' (.missing true))
+      match pendingLoop c s (k+1) 1 0 with
+      | (.done o, t) => (o, .wr :: .rd k c.timeout c.lat :: t)
+      | (.silence k', t) =>
+        pre (.wr :: .rd k c.timeout c.lat :: t) (attempts c s (i+1) k' (.missing false))
+      | (.lost k', t) =>
+        pre (.wr :: .rd k c.timeout c.lat :: (t ++ afterFault c i true)) (attempts c s (i+1) k' (.missing true))
 termination_by c.maxRetry + 1 - i
 decreasing_by all_goals omega
 
